@@ -11,7 +11,7 @@ use client::*;
 use serde_json::{json, Value};
 use verif_harness::common::{Rng, TraceWriter};
 
-const NOMSG: &str = r#"{"id":0,"qr":false,"q":0,"rcode":0,"body":false,"tc":false,"ka":-1}"#;
+const NOMSG: &str = r#"{"id":0,"qr":false,"q":0,"rcode":0,"body":false,"tc":false,"ka":-1,"recs":[]}"#;
 
 struct Rec {
     s: StreamSession,
@@ -42,12 +42,17 @@ impl Rec {
         let comp = self.s.comp.lock().unwrap();
         let mut done = vec![];
         for (r, o, _) in comp[self.seen_done..].iter() {
+            let eof = o.get("eof").is_some();
             let (ok, f) = match o.get("ok") {
                 Some(f) => (true, f.clone()),
                 None => (false, serde_json::from_str(NOMSG).unwrap()),
             };
-            done.push(json!({"r": r, "ok": ok, "f": f}));
-            self.outstanding.retain(|x| x.0 != *r);
+            done.push(json!({"r": r, "ok": ok, "eof": eof, "f": f}));
+            // a transfer stays outstanding until its end mark or an error
+            let multi = self.outstanding.iter().any(|x| x.0 == *r && x.2 >= 500);
+            if !multi || eof || !ok {
+                self.outstanding.retain(|x| x.0 != *r);
+            }
         }
         self.seen_done = comp.len();
         drop(comp);
@@ -71,7 +76,12 @@ impl Rec {
 }
 
 fn msg(id: u64, qr: bool, q: u64, rcode: u64, body: bool, ka: i64) -> Value {
-    json!({"id": id, "qr": qr, "q": q, "rcode": rcode, "body": body, "tc": false, "ka": ka})
+    json!({"id": id, "qr": qr, "q": q, "rcode": rcode, "body": body, "tc": false, "ka": ka, "recs": []})
+}
+
+fn xfr_msg(id: u64, q: u64, recs: &[i64]) -> Value {
+    json!({"id": id, "qr": true, "q": q, "rcode": 0, "body": !recs.is_empty(), "tc": false, "ka": -1,
+           "recs": recs})
 }
 
 
@@ -305,7 +315,13 @@ fn main() {
                 let ev;
                 if want_submit {
                     rc.nreq += 1;
-                    let (r, q) = (rc.nreq, 1 + rng.below(nq));
+                    // one request in twelve is a zone transfer (AXFR 500+n, IXFR 600+n)
+                    let q = match rng.below(12) {
+                        0 => 500 + 1 + rng.below(nq),
+                        1 => 600 + 1 + rng.below(nq),
+                        _ => 1 + rng.below(nq),
+                    };
+                    let r = rc.nreq;
                     rc.s.submit(r, q);
                     rc.unwritten.push_back((r, q));
                     rc.s.settle().await;
@@ -327,11 +343,19 @@ fn main() {
                         } else {
                             Some(rc.outstanding[rng.below(rc.outstanding.len() as u64) as usize])
                         };
+                        const XRECS: [&[i64]; 7] = [&[1], &[0], &[1, 0], &[0, 1], &[1, 0, 1], &[2], &[1, 2, 0]];
                         let f = match (kind, pick) {
+                            (0..=79, Some((_, id, q))) if q >= 500 => {
+                                let recs = XRECS[rng.below(7) as usize];
+                                xfr_msg(id, if rng.chance(1, 3) { 0 } else { q }, recs)
+                            }
                             (0..=54, Some((_, id, q))) => msg(id, true, q, 0, true, -1),
                             (55..=59, Some((_, id, q))) => msg(id, true, q, 2, false, -1),
                             (60..=64, Some((_, id, _))) => msg(id, true, 0, 2, false, -1),
-                            (65..=68, Some((_, id, q))) => msg(id, true, 1 + (q % nq), 0, true, -1),
+                            (65..=66, Some((_, id, q))) => msg(id, true, 1 + (q % nq), 0, true, -1),
+                            (67..=68, Some((_, id, q))) if q < 100 => {
+                                msg(id, true, q + 100 * (1 + rng.below(4)), 0, true, -1)
+                            }
                             (69..=70, Some((_, id, _))) => msg(id, true, 0, 0, false, -1),
                             (71..=72, Some((_, id, _))) => msg(id, true, 0, 2, true, -1),
                             (73..=75, Some((_, id, q))) => msg(id, false, q, 0, false, -1),
